@@ -185,3 +185,670 @@ Proof.
   - destruct (IH H) as (x & A & B). exists x; auto.
   - exists y; auto.
 Qed.
+
+Ltac step_inv0 H :=
+  cbn [step] in H; unfold_steps H; break_match H; inversion H; subst; clear H.
+
+Lemma scan_idem names : forall ign m ign' m',
+  scan names ign m = (ign', m') ->
+  forall I, (forall x, mem x I = mem x ign') -> scan names I m = (I, m').
+Proof.
+  induction names as [|x r IH]; intros ign m ign' m' H I HI; cbn in *.
+  - inversion H; subst. reflexivity.
+  - destruct (mem x ign) eqn:Ex.
+    + destruct (scan_spec _ _ _ _ _ H) as [A _].
+      rewrite HI, A, Ex. cbn. eapply IH; eassumption.
+    + destruct (n_kind x) eqn:K.
+      * destruct (scan_spec _ _ _ _ _ H) as [A _].
+        assert (E : mem x I = false).
+        { rewrite HI, A, Ex. unfold is_bad_kind. rewrite K. reflexivity. }
+        rewrite E. eapply IH; eassumption.
+      * destruct (scan_spec _ _ _ _ _ H) as [A _].
+        assert (E : mem x I = false).
+        { rewrite HI, A, Ex. unfold is_bad_kind. rewrite K. reflexivity. }
+        rewrite E. eapply IH; eassumption.
+      * destruct (scan_spec _ _ _ _ _ H) as [A _].
+        assert (E : mem x I = true).
+        { rewrite HI, A. cbn. rewrite name_eqb_refl. reflexivity. }
+        rewrite E. eapply IH; eassumption.
+Qed.
+
+Lemma synced_seen s : synced s -> forall j, alook (s_seen s) j = newest (s_bucket s) (s_ign s) j.
+Proof.
+  intros H j. destruct (scan_spec _ _ _ _ _ H) as [_ B]. rewrite B. cbn.
+  destruct (newest (s_bucket s) (s_ign s) j); reflexivity.
+Qed.
+
+Lemma synced_seen_bucket s j x : synced s -> alook (s_seen s) j = Some x -> mem x (s_bucket s) = true.
+Proof.
+  intros H E. rewrite synced_seen in E by exact H. apply newest_some in E. apply mem_In. tauto.
+Qed.
+
+(* a successful listing establishes [synced] *)
+Lemma list_ok_synced c s incl s' : step c s (LListOk incl) = Some s' -> synced s'.
+Proof.
+  intros H. step_inv0 H; unfold synced; scbn; eapply scan_idem; eauto.
+Qed.
+
+(* a poll that finds nothing new to ignore leaves lastSeenByInstance and ignoredFilenames as they are *)
+Lemma admin_list_same s : synced s -> forallb (fun x => mem x (s_ign s)) (s_cor s) = true ->
+  scan (s_bucket s) (add_all (s_cor s) (s_ign s)) [] = (s_ign s, s_seen s).
+Proof.
+  intros H A. rewrite add_all_sub; [exact H|]. apply forallb_mem_sub. exact A.
+Qed.
+
+(* ------------------------------------------------------------------ *)
+(* first component                                                      *)
+(* ------------------------------------------------------------------ *)
+
+Lemma in_inflight s x : In x (inflight s) <-> exists j, In j (s_dls s) /\ working (phase_of s j) = Some x.
+Proof.
+  unfold inflight. rewrite in_flat_map. split.
+  - intros (j & A & B). exists j. split; [exact A|]. destruct (working (phase_of s j)); [|destruct B].
+    destruct B as [<-|[]]. reflexivity.
+  - intros (j & A & B). exists j. split; [exact A|]. rewrite B. left. reflexivity.
+Qed.
+
+Lemma U_le s s' :
+  (forall x, In x (cand s') -> mem x (s_ign s') = false -> In x (cand s) /\ mem x (s_ign s) = false) ->
+  (U s' <= U s)%nat.
+Proof.
+  intros H. unfold U. apply nodup_len_le. intros x Hx. apply filter_In in Hx. destruct Hx as [A B].
+  apply negb_true_iff in B. destruct (H x A B) as [C D]. apply filter_In. rewrite D. auto.
+Qed.
+
+Lemma U_lt s s' x0 :
+  (forall x, In x (cand s') -> mem x (s_ign s') = false -> In x (cand s) /\ mem x (s_ign s) = false) ->
+  In x0 (cand s) -> mem x0 (s_ign s) = false -> mem x0 (s_ign s') = true ->
+  (U s' < U s)%nat.
+Proof.
+  intros H A B C. unfold U. apply (nodup_len_lt _ _ x0).
+  - intros x Hx. apply filter_In in Hx. destruct Hx as [A1 B1].
+    apply negb_true_iff in B1. destruct (H x A1 B1) as [C1 D1]. apply filter_In. rewrite D1. auto.
+  - apply filter_In. rewrite B. auto.
+  - intros Hx. apply filter_In in Hx. destruct Hx as [_ Hx]. rewrite C in Hx. discriminate.
+Qed.
+
+Lemma in_cand s x : In x (cand s) <-> In x (s_bucket s) \/ In x (inflight s) \/ mem x (s_cor s) = true.
+Proof. unfold cand. rewrite !in_app_iff, mem_In. tauto. Qed.
+
+Lemma working_in_cand c s j d x :
+  inv1 c s -> s_dl s j = Some d -> working (d_phase d) = Some x -> In x (cand s).
+Proof.
+  intros I1 E W. apply in_cand. right. left. apply in_inflight. exists j. split.
+  - apply (i_dls _ _ I1). congruence.
+  - unfold phase_of. rewrite E. exact W.
+Qed.
+
+(* candidates never grow and nothing is un-ignored, on every step that keeps the bucket *)
+Lemma cand_mono c s l s' :
+  inv c s -> synced s -> internal s l = true -> step c s l = Some s' ->
+  (forall x, In x (cand s') -> In x (cand s)) /\ (forall x, mem x (s_ign s) = true -> mem x (s_ign s') = true).
+Proof.
+  intros [I1 I2 I3 I4] SY IN H.
+  assert (INF : forall s1 j d d', s_dl s j = Some d -> s_dl s1 = upd (s_dl s) j (Some d') -> s_dls s1 = s_dls s ->
+            (forall x, working (d_phase d') = Some x -> In x (cand s)) ->
+            forall x, In x (inflight s1) -> In x (cand s)).
+  { intros s1 j d d' E1 E2 E3 HW x Hx. apply in_inflight in Hx. destruct Hx as (k & A & B).
+    unfold phase_of in B. rewrite E2 in B. rewrite E3 in A.
+    destruct (N.eq_dec k j) as [->|NE].
+    - rewrite upd_same in B. auto.
+    - rewrite upd_other in B by exact NE. apply in_cand. right. left. apply in_inflight.
+      exists k. split; [exact A|exact B]. }
+  step_inv H; scbn; cbn [internal negb] in IN; try discriminate IN.
+  all: try match goal with HS : scan _ _ [] = (_, _) |- _ => destruct (scan_spec _ _ _ _ _ HS) as [SA SB] end.
+  all: split; [|try solve [auto]].
+  all: try solve [intros x0 Hx; rewrite SA, mem_add_all, Hx, orb_true_r; reflexivity].
+  all: intros x0 Hx; apply in_cand in Hx; scbn; destruct Hx as [Hx|[Hx|Hx]];
+       [apply in_cand; left; exact Hx | | try solve [apply in_cand; right; right; exact Hx]].
+  all: try solve [apply in_cand; right; left; exact Hx].
+  all: try solve [match goal with HD : s_dl ?s0 ?j = Some ?d, Hx : In _ (inflight ?s1) |- _ =>
+         eapply (INF s1 j d _ HD eq_refl eq_refl); [|exact Hx]; cbn; intros y Hy; inv_some;
+         first [ discriminate Hy
+               | eapply working_in_cand; [eassumption | eassumption | phase_rw; reflexivity]
+               | apply in_cand; left; apply mem_In; eapply synced_seen_bucket; eassumption ] end].
+  - match type of Hx with In _ (inflight ?s1) => eapply (INF s1 j d _ Heqo1 eq_refl eq_refl); [|exact Hx] end. cbn. intros y Hy.
+    eapply working_in_cand; eassumption.
+  - apply in_inflight in Hx. destruct Hx as (k & A & B). scbn. unfold phase_of in B. scbn.
+    destruct (N.eq_dec k j) as [->|NE].
+    + rewrite upd_same in B. discriminate.
+    + rewrite upd_other in B by exact NE. apply in_app_iff in A. destruct A as [A|[A|[]]]; [|congruence].
+      apply in_cand. right. left. apply in_inflight. exists k. split; [exact A|exact B].
+  - rewrite mem_add in Hx. apply orb_true_iff in Hx. destruct Hx as [Hx|Hx].
+    + apply name_eqb_eq in Hx; subst x0. eapply working_in_cand; [eassumption | eassumption | rewrite Heqp; reflexivity].
+    + apply in_cand. right. right. exact Hx.
+Qed.
+
+(* ------------------------------------------------------------------ *)
+(* the measure                                                          *)
+(* ------------------------------------------------------------------ *)
+
+Lemma synced_step c s l s' :
+  synced s -> internal s l = true -> step c s l = Some s' -> synced s'.
+Proof.
+  intros SY IN H. destruct l; try discriminate IN.
+  1: { eapply list_ok_synced; eassumption. }
+  all: step_inv0 H; unfold synced in *; scbn; assumption.
+Qed.
+
+Lemma U_step_le c s l s' :
+  inv c s -> synced s -> internal s l = true -> step c s l = Some s' -> (U s' <= U s)%nat.
+Proof.
+  intros I SY IN H. destruct (cand_mono _ _ _ _ I SY IN H) as [A B].
+  apply U_le. intros x Hx Hi. split; [auto|].
+  destruct (mem x (s_ign s)) eqn:E; [|reflexivity]. rewrite (B _ E) in Hi. discriminate.
+Qed.
+
+Lemma U_list_lt c s incl s' :
+  inv c s -> synced s -> internal s (LListOk incl) = true -> step c s (LListOk incl) = Some s' ->
+  admin c s (LListOk incl) = false -> (U s' < U s)%nat.
+Proof.
+  intros I SY IN H AD. destruct (cand_mono _ _ _ _ I SY IN H) as [A B].
+  cbn in AD. apply forallb_mem_not in AD. destruct AD as (x0 & X1 & X2).
+  apply (U_lt s s' x0).
+  - intros x Hx Hi. split; [auto|].
+    destruct (mem x (s_ign s)) eqn:E; [|reflexivity]. rewrite (B _ E) in Hi. discriminate.
+  - apply in_cand. right. right. apply mem_In. exact X1.
+  - exact X2.
+  - step_inv0 H; scbn; destruct (scan_spec _ _ _ _ _ Heqp) as [SA _];
+    rewrite SA, mem_add_all; apply mem_In in X1; rewrite X1; reflexivity.
+Qed.
+
+Lemma sum_mj_upd s s' j d d' :
+  NoDup (s_dls s) -> In j (s_dls s) -> s_dl s j = Some d ->
+  s_dl s' = upd (s_dl s) j (Some d') -> s_dls s' = s_dls s -> s_seen s' = s_seen s ->
+  (sum (mj s') (s_dls s') + dl_meas (s_seen s) j d = sum (mj s) (s_dls s) + dl_meas (s_seen s) j d')%nat.
+Proof.
+  intros ND IN E E1 E2 E3. rewrite E2.
+  pose proof (sum_upd (mj s') (mj s) (s_dls s) j ND IN) as H.
+  assert (A : mj s j = dl_meas (s_seen s) j d) by (unfold mj; rewrite E; reflexivity).
+  assert (B : mj s' j = dl_meas (s_seen s) j d') by (unfold mj; rewrite E1, E3, upd_same; reflexivity).
+  rewrite A, B in H. apply H. intros k NE. unfold mj. rewrite E1, E3, upd_other by exact NE. reflexivity.
+Qed.
+
+Lemma sum_mj_same s s' :
+  s_dl s' = s_dl s -> s_dls s' = s_dls s -> s_seen s' = s_seen s ->
+  sum (mj s') (s_dls s') = sum (mj s) (s_dls s).
+Proof. intros E1 E2 E3. unfold mj. rewrite E1, E2, E3. reflexivity. Qed.
+
+Lemma n_ready_upd s s' j v :
+  NoDup (s_dls s) -> In j (s_dls s) ->
+  s_ready s' = upd (s_ready s) j v -> s_dls s' = s_dls s ->
+  (n_ready s' + b2n (is_some (s_ready s j)) = n_ready s + b2n (is_some v))%nat.
+Proof. intros. unfold n_ready. apply count_ready_upd; assumption. Qed.
+
+Lemma n_ready_same s s' : s_ready s' = s_ready s -> s_dls s' = s_dls s -> n_ready s' = n_ready s.
+Proof. intros E1 E2. unfold n_ready. rewrite E1, E2. reflexivity. Qed.
+
+Lemma pw_pend_of c s s' incl m :
+  s_pend s' = pend_of incl m -> (forall e, signals c s' incl e = signals c s incl e) ->
+  pw c s' = (50 * length (filter (signals c s incl) m))%nat.
+Proof.
+  intros E H. unfold pw. rewrite E. destruct m as [|e r]; cbn [pend_of]; [reflexivity|].
+  rewrite (filter_ext _ _ (H)). reflexivity.
+Qed.
+
+Lemma pw_same c s s' : s_pend s' = s_pend s -> s_notif s' = s_notif s -> pw c s' = pw c s.
+Proof. intros E1 E2. unfold pw, signals. rewrite E1, E2. reflexivity. Qed.
+
+Lemma pw_of_pend c s incl m :
+  s_pend s = pend_of incl m -> pw c s = (50 * length (filter (signals c s incl) m))%nat.
+Proof. intros E. unfold pw. rewrite E. destruct m; reflexivity. Qed.
+
+Lemma pw_notify c s s' b a j n :
+  s_pend s = Some (b, a) -> alook a j = Some n -> signals c s b (j, n) = true ->
+  s_pend s' = pend_of b (adel a j) -> s_notif s' = upd (s_notif s) j (Some n) ->
+  (pw c s' + 50 <= pw c s)%nat.
+Proof.
+  intros E1 E2 E3 E4 E5. rewrite (pw_of_pend c s' b (adel a j) E4).
+  unfold pw at 1. rewrite E1.
+  rewrite (filter_adel_ext (signals c s' b) (signals c s b)).
+  - pose proof (filter_adel_lt (signals c s b) a j n E2 E3). lia.
+  - intros k y NE. unfold signals. cbn [fst snd]. rewrite E5, upd_other by exact NE. reflexivity.
+Qed.
+
+Ltac onames :=
+  repeat match goal with
+  | |- context [oname_eqb ?a ?b] =>
+      let E := fresh "E" in destruct (oname_eqb a b) eqn:E; [apply oname_eqb_eq in E | apply oname_eqb_neq in E]
+  | H : context [oname_eqb ?a ?b] |- _ =>
+      let E := fresh "E" in destruct (oname_eqb a b) eqn:E; [apply oname_eqb_eq in E | apply oname_eqb_neq in E]
+  end.
+
+(* the measure strictly decreases on every non-administrative step other than a listing *)
+Lemma mu_step c s l s' :
+  inv c s -> synced s -> internal s l = true -> step c s l = Some s' ->
+  admin c s l = false -> (forall incl, l <> LListOk incl) -> (mu c s' < mu c s)%nat.
+Proof.
+  intros [I1 I2 I3 I4] SY IN H AD NL.
+  pose proof (i_nodup _ _ I1) as ND.
+  step_inv H; cbn [internal negb] in IN; try discriminate IN; try (exfalso; eapply NL; reflexivity).
+  all: try (unfold phase_of in IN; match goal with E : s_dl _ _ = Some ?d, HP : d_phase ?d = _ |- _ => rewrite E, HP in IN end).
+  all: try match goal with E : s_dl ?s ?j = Some ?d |- _ =>
+      assert (INJ : In j (s_dls s)) by (apply (i_dls _ _ I1); congruence)
+    end.
+  all: try match goal with E : s_ready ?s ?j = Some ?d |- _ =>
+      assert (INJ : In j (s_dls s)) by (eapply (i_ready_dl _ _ I1); eassumption)
+    end.
+  all: try match goal with E : s_dl ?s ?j = Some ?d, HP : d_phase ?d = _ |- _ =>
+      pose proof (v_w _ _ I3 j d) as HW; rewrite HP in HW; cbn in HW; specialize (HW _ E eq_refl)
+    end.
+  all: try match goal with E : s_dl ?s ?j = Some ?d |- (mu _ ?s' < _)%nat =>
+      match s' with context [upd (s_dl s) j (Some ?d')] =>
+      pose proof (sum_mj_upd s s' j d d' ND INJ E eq_refl eq_refl eq_refl) as HS
+      end end.
+  all: try match goal with |- (mu _ ?s' < mu _ ?s)%nat =>
+      assert (EP : pw c s' = pw c s) by (apply pw_same; reflexivity) end.
+  all: try match goal with |- (mu _ ?s' < mu _ ?s)%nat =>
+      assert (ER : n_ready s' = n_ready s) by (apply n_ready_same; reflexivity) end.
+  all: try match goal with |- (mu _ ?s' < mu _ ?s)%nat =>
+      match s' with context [upd (s_ready s) ?j ?v] =>
+      pose proof (n_ready_upd s s' j v ND INJ eq_refl eq_refl) as ER end end.
+  all: try match goal with |- (mu _ ?s' < mu _ ?s)%nat =>
+      assert (ES : sum (mj s') (s_dls s') = sum (mj s) (s_dls s)) by (apply sum_mj_same; reflexivity) end.
+  all: unfold mu, n_merge.
+  all: try rewrite EP. all: try rewrite ER. all: try rewrite ES.
+  all: scbn.
+  all: try (unfold dl_meas, todo, stale in HS; scbn; phase_rw; cbn [working rank] in HS).
+  all: try solve [lia].
+  all: try solve [destruct (alook (s_seen s) j) eqn:EA; onames; cbn [b2n negb] in *; try congruence; try lia].
+  all: repeat match goal with H : d_sig _ = _ |- _ => rewrite H in * end.
+  all: try match goal with H : s_merge _ = _ |- _ => rewrite H in * end.
+  all: try match goal with H : s_ready _ _ = _ |- _ => rewrite H in * end.
+  all: cbn [is_some b2n] in *.
+  all: try match goal with |- context [removeN ?j ?w] => pose proof (removeN_len j w) end.
+  all: try solve [lia].
+  all: try solve [destruct (alook (s_seen s) j) eqn:EA; onames; cbn [b2n negb] in *; try congruence; try lia].
+  - (* notify, no change: administrative *)
+    exfalso. cbn in AD. rewrite Heqo, Heqo0 in AD. unfold signals in AD. cbn [fst snd] in AD.
+    rewrite Heqb0 in AD. discriminate.
+  - exfalso. cbn in AD. rewrite Heqo, Heqo0 in AD. unfold signals in AD. cbn [fst snd] in AD.
+    rewrite Heqb1 in AD. rewrite andb_false_r in AD. discriminate.
+  - (* notify existing downloader *)
+    match goal with |- (pw c ?s1 + _ + _ + _ + _ + _ < _)%nat =>
+      assert (PW : (pw c s1 + 50 <= pw c s)%nat) end.
+    { eapply pw_notify; try eassumption; try reflexivity.
+      unfold signals. cbn [fst snd]. rewrite Heqb0, Heqb1. reflexivity. }
+    destruct (d_sig d); cbn [b2n] in HS; lia.
+  - (* notify, new downloader *)
+    assert (NIN : ~ In j (s_dls s)) by (rewrite (i_dls _ _ I1); intros NIN; apply NIN; exact Heqo1).
+    match goal with |- (pw c ?s1 + _ + _ + _ + _ + _ < _)%nat =>
+      assert (PW : (pw c s1 + 50 <= pw c s)%nat);
+      [| assert (SM : (sum (mj s1) (s_dls s ++ [j]) <= sum (mj s) (s_dls s) + 40)%nat);
+         [| assert (NR : n_ready s1 = n_ready s) ] ] end.
+    { eapply pw_notify; try eassumption; try reflexivity.
+      unfold signals. cbn [fst snd]. rewrite Heqb0, Heqb1. reflexivity. }
+    { rewrite sum_app. cbn [sum].
+      match goal with |- (sum ?f _ + _ <= _)%nat => rewrite (sum_ext f (mj s) (s_dls s)) end.
+      - fold (mj s). unfold mj at 2. scbn. rewrite upd_same. unfold dl_meas, todo, stale. cbn [d_sig d_last d_phase working rank b2n].
+        destruct (alook (s_seen s) j); cbn [b2n negb]; try lia.
+        match goal with |- context [b2n ?bb] => destruct bb end; cbn [b2n]; lia.
+      - intros k Hk. unfold mj. scbn. rewrite upd_other; [reflexivity|]. intros ->. contradiction. }
+    { unfold n_ready. scbn. rewrite count_app. cbn [count].
+      destruct (s_ready s j) eqn:ER; [exfalso; apply NIN; eapply (i_ready_dl _ _ I1); eassumption|].
+      cbn. lia. }
+    lia.
+  - (* load of a vanished blob *)
+    apply negb_true_iff in IN.
+    destruct (alook (s_seen s) j) eqn:EA; onames; cbn [b2n negb] in *; try congruence; try lia.
+    all: exfalso; apply (synced_seen_bucket _ _ _ SY) in EA; congruence.
+  - (* bottom *)
+    apply orb_false_iff in Heqb. destruct Heqb as [_ EX]. rewrite EX.
+    cbn in AD. rewrite Heql in AD. cbn in AD. rewrite andb_true_r in AD.
+    destruct (s_wait s) as [|w0 wr]; cbn in *.
+    + destruct (c_once c); cbn in *; [lia | discriminate].
+    + destruct (c_once c); cbn; lia.
+  - apply orb_false_iff in Heqb. destruct Heqb as [_ EX]. rewrite EX.
+    cbn [admin] in AD. rewrite Heql in AD. rewrite andb_false_r in AD. cbn [negb] in AD. rewrite andb_true_r in AD.
+    pose proof (filter_len_le (fun j => memN j (seen_insts s)) (s_wait s)) as LE.
+    unfold still_seen in Heql. rewrite Heql in LE. cbn [length] in *.
+    apply Nat.eqb_neq in AD. rewrite andb_false_r. lia.
+Qed.
+
+Lemma aset_keys m j x : NoDup (map fst m) -> NoDup (map fst (aset m j x)).
+Proof.
+  induction m as [|[k y] r IH]; cbn; intros ND.
+  - repeat constructor. tauto.
+  - inversion ND as [|? ? NI ND']; subst. destruct (j =? k) eqn:E; cbn.
+    + constructor; assumption.
+    + constructor; [|auto]. intros HI. apply NI.
+      clear - HI E. induction r as [|[i z] r IH]; cbn in *.
+      * destruct HI as [HI|[]]. subst. rewrite N.eqb_refl in E. discriminate.
+      * destruct (j =? i) eqn:F; cbn in *; [exact HI|]. destruct HI as [HI|HI]; auto.
+Qed.
+
+Lemma scan_keys names : forall ign m ign' m',
+  scan names ign m = (ign', m') -> NoDup (map fst m) -> NoDup (map fst m').
+Proof.
+  induction names as [|x r IH]; intros ign m ign' m' H ND; cbn in H.
+  - inversion H; subst. exact ND.
+  - destruct (mem x ign); [eapply IH; eassumption|].
+    destruct (n_kind x); try (eapply IH; eassumption).
+    eapply IH; [eassumption|]. apply aset_keys. exact ND.
+Qed.
+
+Lemma alook_of_in m j x : NoDup (map fst m) -> In (j, x) m -> alook m j = Some x.
+Proof.
+  induction m as [|[k y] r IH]; cbn; intros ND HI; [destruct HI|].
+  inversion ND as [|? ? NI ND']; subst. destruct HI as [HI|HI].
+  - inversion HI; subst. rewrite N.eqb_refl. reflexivity.
+  - destruct (j =? k) eqn:E.
+    + apply N.eqb_eq in E; subst. exfalso. apply NI. apply (in_map fst) in HI. exact HI.
+    + auto.
+Qed.
+
+Lemma filter_none {A} (f : A -> bool) l : (forall e, In e l -> f e = false) -> filter f l = [].
+Proof.
+  induction l as [|e r IH]; cbn; intros H; [reflexivity|].
+  rewrite (H e) by auto. apply IH. auto.
+Qed.
+
+(* administrative steps do not increase the measure *)
+Lemma mu_admin c s l s' :
+  inv c s -> synced s -> internal s l = true -> step c s l = Some s' ->
+  admin c s l = true -> (mu c s' <= mu c s)%nat.
+Proof.
+  intros [I1 I2 I3 I4] SY IN H AD.
+  pose proof (i_nodup _ _ I1) as ND.
+  destruct l; cbn [admin] in AD; try discriminate AD.
+  - (* a poll that finds nothing new *)
+    cbn [internal] in IN. apply negb_true_iff in IN. subst incl.
+    pose proof (admin_list_same s SY AD) as SC.
+    assert (NS : forall e, In e (s_seen s) -> signals c s false e = false).
+    { intros [j x] He. unfold signals. cbn [fst snd negb andb].
+      assert (NK : NoDup (map fst (s_seen s))) by (eapply scan_keys; [exact SY | constructor]).
+      pose proof (alook_of_in _ _ _ NK He) as AL.
+      destruct (v_n _ _ I3 _ _ AL) as [A|[(i & m & A & _)|[A _]]].
+      - rewrite A. assert (E : oname_eqb (Some x) (Some x) = true) by (apply oname_eqb_eq; reflexivity).
+        rewrite E. reflexivity.
+      - step_inv0 H; congruence.
+      - subst j. rewrite N.eqb_refl. cbn. apply andb_false_r. }
+    step_inv0 H; inversion SC; subst l a.
+    + unfold mu. 
+      match goal with |- (pw _ ?s1 + sum (mj ?s1) _ + 2 * n_ready ?s1 + n_merge ?s1 + _ + _ <= _)%nat =>
+        assert (EP : pw c s1 = 0%nat);
+        [| assert (ES : sum (mj s1) (s_dls s1) = sum (mj s) (s_dls s)) by (apply sum_mj_same; reflexivity);
+           assert (ER : n_ready s1 = n_ready s) by (apply n_ready_same; reflexivity) ] end.
+      { erewrite pw_of_pend; [|reflexivity]. unfold signals. scbn. fold (signals c s false).
+        rewrite (filter_none _ _ NS). reflexivity. }
+      rewrite EP, ES, ER. unfold n_merge. scbn. lia.
+    + cbn in Heqb. discriminate.
+  - (* a loop iteration of RunOnce that notifies nobody *)
+    step_inv0 H; try rewrite Heqo in AD; try rewrite Heqo0 in AD; apply negb_true_iff in AD;
+    unfold signals in AD; cbn [fst snd] in AD.
+    3,4: rewrite Heqb0, Heqb1 in AD; discriminate AD.
+    all: unfold mu;
+      match goal with |- (pw _ ?s1 + sum (mj ?s1) _ + 2 * n_ready ?s1 + n_merge ?s1 + _ + _ <= _)%nat =>
+        assert (EP : (pw c s1 <= pw c s)%nat);
+        [| assert (ES : sum (mj s1) (s_dls s1) = sum (mj s) (s_dls s)) by (apply sum_mj_same; reflexivity);
+           assert (ER : n_ready s1 = n_ready s) by (apply n_ready_same; reflexivity) ] end.
+    1,3: erewrite pw_of_pend; [|reflexivity]; unfold pw; rewrite Heqo; unfold signals; scbn;
+         pose proof (filter_adel_le (fun e => negb (oname_eqb (Some (snd e)) (s_notif s (fst e))) &&
+                                              negb (negb b && (fst e =? c_own c))) a j); lia.
+    all: rewrite ES, ER; unfold n_merge; scbn; lia.
+  - (* a pass through the bottom of syncLoop that changes nothing *)
+    apply andb_true_iff in AD. destruct AD as [A1 A2]. apply Nat.eqb_eq in A1. apply negb_true_iff in A2.
+    unfold still_seen in A1. apply filter_len_eq in A1.
+    step_inv0 H; unfold still_seen in Heql; rewrite A1 in Heql.
+    all: apply orb_false_iff in Heqb; destruct Heqb as [_ EX].
+    all: unfold mu;
+      match goal with |- (pw _ ?s1 + sum (mj ?s1) _ + 2 * n_ready ?s1 + n_merge ?s1 + _ + _ <= _)%nat =>
+        assert (EP : pw c s1 = pw c s) by (apply pw_same; reflexivity);
+        assert (ES : sum (mj s1) (s_dls s1) = sum (mj s) (s_dls s)) by (apply sum_mj_same; reflexivity);
+        assert (ER : n_ready s1 = n_ready s) by (apply n_ready_same; reflexivity) end.
+    all: rewrite EP, ES, ER; unfold n_merge; scbn; rewrite EX, Heql; cbn [length].
+    + rewrite A2. lia.
+    + rewrite andb_false_r. lia.
+Qed.
+
+(* ------------------------------------------------------------------ *)
+(* C16_progress, part 1: the measure                                    *)
+(* ------------------------------------------------------------------ *)
+
+Definition good (c : cfg) (s : state) : Prop := inv c s /\ synced s.
+
+Theorem progress_measure c s l s' :
+  good c s -> internal s l = true -> step c s l = Some s' ->
+  good c s' /\
+  (admin c s l = true -> (U s' <= U s)%nat /\ (mu c s' <= mu c s)%nat) /\
+  (admin c s l = false -> lex_lt (meas c s') (meas c s)).
+Proof.
+  intros [I SY] IN H. split; [|split].
+  - split; [eapply inv_step; eassumption | eapply synced_step; eassumption].
+  - intros AD. split; [eapply U_step_le; eassumption | eapply mu_admin; eassumption].
+  - intros AD. unfold lex_lt, meas. cbn [fst snd].
+    destruct l; try (pose proof (U_step_le _ _ _ _ I SY IN H) as LE;
+                     assert (LT : (mu c s' < mu c s)%nat) by (eapply mu_step; try eassumption; intros; discriminate);
+                     lia).
+    left. eapply U_list_lt; eassumption.
+Qed.
+
+Definition admin_succ (c : cfg) (s1 s2 : state) : Prop :=
+  exists l, internal s1 l = true /\ admin c s1 l = true /\ step c s1 l = Some s2.
+Definition useful_succ (c : cfg) (s1 s2 : state) : Prop :=
+  exists l, internal s1 l = true /\ admin c s1 l = false /\ step c s1 l = Some s2.
+(* any number of administrative steps, then one useful step *)
+Definition macro (c : cfg) (s2 s1 : state) : Prop :=
+  exists s1', clos_refl_trans_1n state (admin_succ c) s1 s1' /\ useful_succ c s1' s2.
+
+Lemma admin_star c s1 s1' :
+  clos_refl_trans_1n state (admin_succ c) s1 s1' -> good c s1 ->
+  good c s1' /\ (U s1' <= U s1)%nat /\ (mu c s1' <= mu c s1)%nat.
+Proof.
+  induction 1 as [s|s sm s' (l & A & B & C) R IH]; intros G.
+  - split; [exact G | lia].
+  - destruct (progress_measure _ _ _ _ G A C) as (G' & AD & _).
+    destruct (AD B) as [L1 L2]. destruct (IH G') as (G'' & L3 & L4). split; [exact G''|lia].
+Qed.
+
+Theorem progress_finite c s :
+  good c s -> Acc (fun s2 s1 => good c s1 /\ macro c s2 s1) s.
+Proof.
+  remember (meas c s) as p eqn:E. revert s E.
+  induction p as [p IH] using (well_founded_induction lex_lt_wf).
+  intros s E G. constructor. intros s2 [_ (s1' & A & (l & B1 & B2 & B3))].
+  destruct (admin_star _ _ _ A G) as (G1 & L1 & L2).
+  destruct (progress_measure _ _ _ _ G1 B1 B3) as (G2 & _ & US).
+  specialize (US B2).
+  apply (IH (meas c s2)); [|reflexivity|exact G2].
+  subst p. unfold lex_lt, meas in *. cbn [fst snd] in *. lia.
+Qed.
+
+(* ------------------------------------------------------------------ *)
+(* C16_progress, part 2: what holds when no useful step is enabled      *)
+(* ------------------------------------------------------------------ *)
+
+Definition quiescent (c : cfg) (s : state) : Prop :=
+  s_pend s = None /\
+  forall l s', internal s l = true -> step c s l = Some s' -> admin c s l = true.
+
+Lemma count_all_false f l : (forall j, In j l -> f j = false) -> count f l = 0%nat.
+Proof. induction l as [|k r IH]; cbn; intros H; [reflexivity|]. rewrite (H k), IH; auto. Qed.
+
+Lemma newest_vs_ok names ign j :
+  (forall y, mem y ign = true -> n_kind y = KSnap -> n_ok y = false) ->
+  match newest names ign j with
+  | Some x => n_ok x = true -> newest_ok names j = Some x
+  | None => newest_ok names j = None
+  end.
+Proof.
+  intros HB. induction names as [|y r IH]; cbn; [reflexivity|].
+  destruct (newest r ign j) as [z|].
+  - intros Hz. rewrite (IH Hz). reflexivity.
+  - rewrite IH. destruct (n_inst y =? j) eqn:E1; cbn; [|reflexivity].
+    destruct (kind_eqb (n_kind y) KSnap) eqn:E2; cbn; [|reflexivity].
+    destruct (mem y ign) eqn:E3; cbn.
+    + apply kind_eqb_eq in E2. rewrite (HB y E3 E2). reflexivity.
+    + intros ->. reflexivity.
+Qed.
+
+Lemma last_deliv_in d j x : last_deliv d j = Some x -> In x d.
+Proof.
+  induction d as [|y r IH]; cbn; [discriminate|].
+  destruct (n_inst y =? j); intros H; [inversion H; auto | auto].
+Qed.
+
+Lemma memN_alook m j : memN j (map fst m) = true -> exists x, alook m j = Some x.
+Proof.
+  induction m as [|[k y] r IH]; cbn; [discriminate|].
+  destruct (j =? k); cbn; [eauto | exact IH].
+Qed.
+
+Section Quiescent.
+  Variable c : cfg.
+  Variable s : state.
+  Hypothesis G : good c s.
+  Hypothesis ST : s_started s = true.
+  Hypothesis EX : s_exited s = false.
+  Hypothesis Q : quiescent c s.
+
+  Let I := proj1 G.
+  Let SY := proj2 G.
+  Let I1 := inv_1 _ _ I.
+  Let I2 := inv_2 _ _ I.
+  Let I3 := inv_3 _ _ I.
+  Let I4 := inv_4 _ _ I.
+
+  Lemma q_no (l : label) : internal s l = true -> admin c s l = false -> step c s l = None.
+  Proof.
+    intros A B. destruct (step c s l) eqn:E; [|reflexivity].
+    rewrite (proj2 Q _ _ A E) in B. discriminate.
+  Qed.
+
+  Lemma q_merge : s_merge s = None.
+  Proof.
+    pose proof (q_no LClose eq_refl eq_refl) as H. cbn in H. unfold close in H.
+    destruct (s_merge s); [discriminate | reflexivity].
+  Qed.
+
+  Lemma q_ready j : s_ready s j = None.
+  Proof.
+    pose proof (q_no (LNext j) eq_refl eq_refl) as H. cbn in H. unfold next in H.
+    rewrite q_merge, EX in H. destruct (s_ready s j); [discriminate | reflexivity].
+  Qed.
+
+  (* every downloader is idle, or blocked on a token *)
+  Lemma q_phase j d : s_dl s j = Some d ->
+    (d_phase d = Idle /\ d_sig d = false) \/
+    (exists x, d_phase d = WantDl x /\ s_fdl s = 0%nat) \/
+    (exists x, d_phase d = Loaded x /\ s_fdc s = 0%nat).
+  Proof.
+    intros E. destruct (d_phase d) eqn:P.
+    - left. split; [reflexivity|]. pose proof (q_no (LWake j) eq_refl eq_refl) as H.
+      cbn in H. unfold wake, with_dl in H. rewrite E, P in H. destruct (d_sig d); [discriminate|reflexivity].
+    - exfalso. pose proof (q_no (LCheck j) eq_refl eq_refl) as H.
+      cbn in H. unfold check, with_dl in H. rewrite E, P in H.
+      destruct (alook (s_seen s) j); [destruct (oname_eqb _ _)|]; discriminate.
+    - right. left. exists x. split; [reflexivity|]. pose proof (q_no (LAcqDl j) eq_refl eq_refl) as H.
+      cbn in H. unfold acq_dl, with_dl in H. rewrite E, P in H. destruct (s_fdl s); [reflexivity|discriminate].
+    - exfalso. destruct (mem x (s_bucket s)) eqn:M.
+      + pose proof (q_no (LLoadOk j) eq_refl eq_refl) as H.
+        cbn in H. unfold load_ok, with_dl in H. rewrite E, P, M in H. discriminate.
+      + assert (A : internal s (LLoadFail j) = true).
+        { cbn. unfold phase_of. rewrite E, P, M. reflexivity. }
+        pose proof (q_no (LLoadFail j) A eq_refl) as H.
+        cbn in H. unfold load_fail, with_dl in H. rewrite E, P in H. discriminate.
+    - right. right. exists x. split; [reflexivity|]. pose proof (q_no (LAcqDc j) eq_refl eq_refl) as H.
+      cbn in H. unfold acq_dc, with_dl in H. rewrite E, P in H. destruct (s_fdc s); [reflexivity|discriminate].
+    - exfalso. pose proof (q_no (LDecode j) eq_refl eq_refl) as H.
+      cbn in H. unfold decode, with_dl in H. rewrite E, P in H.
+      destruct (n_ok x); [destruct (s_ready s j)|]; discriminate.
+    - exfalso. pose proof (q_no (LRetry j) eq_refl eq_refl) as H.
+      cbn in H. unfold retry, with_dl in H. rewrite E, P in H. discriminate.
+  Qed.
+
+  Lemma q_dc_free : s_fdc s = lim_dc c.
+  Proof.
+    pose proof (i_tok_dc _ _ I1) as T. unfold held_dc, n_ready, n_decoding, n_merge in T.
+    rewrite q_merge in T. cbn in T.
+    rewrite (count_all_false (fun j => is_some (s_ready s j))) in T by (intros; rewrite q_ready; reflexivity).
+    rewrite (count_all_false (fun j => holds_dc (phase_of s j))) in T.
+    - lia.
+    - intros j Hj. unfold phase_of. destruct (s_dl s j) as [d|] eqn:E; [|reflexivity].
+      destruct (q_phase j d E) as [[A _]|[(x & A & _)|(x & A & _)]]; rewrite A; reflexivity.
+  Qed.
+
+  Lemma q_no_loaded j d x : s_dl s j = Some d -> d_phase d <> Loaded x.
+  Proof.
+    intros E P. destruct (q_phase j d E) as [[A _]|[(y & A & _)|(y & A & B)]]; try congruence.
+    pose proof q_dc_free. pose proof (eff_limit_pos (c_dc c)). unfold lim_dc in *. lia.
+  Qed.
+
+  Lemma q_dl_free : s_fdl s = lim_dl c.
+  Proof.
+    pose proof (i_tok_dl _ _ I1) as T. unfold held_dl in T.
+    rewrite (count_all_false (fun j => holds_dl (phase_of s j))) in T; [lia|].
+    intros j Hj. unfold phase_of. destruct (s_dl s j) as [d|] eqn:E; [|reflexivity].
+    destruct (q_phase j d E) as [[A _]|[(x & A & _)|(x & A & _)]]; rewrite A; try reflexivity.
+    exfalso. eapply q_no_loaded; eassumption.
+  Qed.
+
+  Lemma q_idle j d : s_dl s j = Some d -> d_phase d = Idle /\ d_sig d = false.
+  Proof.
+    intros E. destruct (q_phase j d E) as [A|[(x & A & B)|(x & A & _)]]; [exact A| |].
+    - exfalso. pose proof q_dl_free. pose proof (eff_limit_pos (c_dl c)). unfold lim_dl in *. lia.
+    - exfalso. eapply q_no_loaded; eassumption.
+  Qed.
+
+  Lemma q_cor_ign x : mem x (s_cor s) = true -> mem x (s_ign s) = true.
+  Proof.
+    assert (A : admin c s (LListOk false) = true).
+    { destruct (step c s (LListOk false)) eqn:E.
+      - apply (proj2 Q (LListOk false) _ eq_refl E).
+      - exfalso. cbn in E. unfold list_ok in E. rewrite (proj1 Q), ST in E. cbn in E.
+        destruct (scan _ _ _). discriminate. }
+    cbn in A. apply forallb_mem_sub. exact A.
+  Qed.
+
+  (* the newest non-ignored name of j has been handed to the merge loop, and nothing of j after it *)
+  Lemma q_seen_delivered j x :
+    (j <> c_own c \/ s_ownskip s = false) -> alook (s_seen s) j = Some x ->
+    last_deliv (s_deliv s) j = Some x /\ n_ok x = true.
+  Proof.
+    intros HJ E.
+    assert (NT : s_notif s j = Some x).
+    { destruct (v_n _ _ I3 _ _ E) as [A|[(i & m & A & _)|[A B]]]; [exact A| |].
+      - rewrite (proj1 Q) in A. discriminate.
+      - destruct HJ; congruence. }
+    destruct (v_k _ _ I3 _ _ HJ E NT) as (d & D & KO).
+    destruct (q_idle _ _ D) as [P S]. unfold k_ok in KO. rewrite P, S in KO.
+    destruct KO as [KO|KO]; [discriminate|].
+    assert (LD : last_deliv (s_deliv s) j = Some x).
+    { destruct (v_d _ _ I3 _ _ _ D KO) as [A|[A|A]]; [| |exact A].
+      - exfalso. apply q_cor_ign in A. rewrite synced_seen in E by exact SY.
+        apply newest_some in E. destruct E as (_ & _ & _ & E). congruence.
+      - rewrite q_ready in A. discriminate. }
+    split; [exact LD|]. apply (q_deliv _ I2). eapply last_deliv_in. exact LD.
+  Qed.
+
+  Theorem quiescent_delivered j x :
+    (j <> c_own c \/ s_ownskip s = false) ->
+    newest_ok (s_bucket s) j = Some x -> last_deliv (s_deliv s) j = Some x.
+  Proof.
+    intros HJ E.
+    assert (HB : forall y, mem y (s_ign s) = true -> n_kind y = KSnap -> n_ok y = false).
+    { intros y A B. destruct (q_ign _ I2 _ A) as [C|C]; [congruence|]. apply (q_cor _ I2 _ C). }
+    pose proof (newest_vs_ok (s_bucket s) (s_ign s) j HB) as NV.
+    destruct (newest (s_bucket s) (s_ign s) j) as [z|] eqn:EN.
+    - rewrite <- synced_seen in EN by exact SY.
+      destruct (q_seen_delivered j z HJ EN) as [A B]. rewrite (NV B) in E. inversion E; subst. exact A.
+    - congruence.
+  Qed.
+
+  (* run-once: a quiescent state with an un-emptied waiting set is impossible *)
+  Theorem quiescent_once : c_once c = true -> s_ownskip s = false -> False.
+  Proof.
+    intros ON OS.
+    assert (A : admin c s LBottom = true).
+    { destruct (step c s LBottom) eqn:E.
+      - apply (proj2 Q LBottom _ eq_refl E).
+      - exfalso. cbn in E. unfold bottom in E. rewrite q_merge, ST, EX in E. cbn in E. discriminate. }
+    cbn in A. rewrite ON in A. apply andb_true_iff in A. destruct A as [A1 A2].
+    destruct (still_seen s (s_wait s)) as [|j r] eqn:W; [discriminate|].
+    assert (HJ : In j (still_seen s (s_wait s))) by (rewrite W; left; reflexivity).
+    unfold still_seen in HJ. apply filter_In in HJ. destruct HJ as [H1 H2].
+    apply memN_alook in H2. destruct H2 as (x & H2).
+    destruct (q_seen_delivered j x (or_intror OS) H2) as [B _].
+    rewrite (o_nodeliv _ _ I4 _ H1) in B. discriminate.
+  Qed.
+End Quiescent.
